@@ -69,3 +69,45 @@ func HC09Rtpfb() {
 	}
 	vr.Assert(reported[0] == 1 && reported[3] == 1, "acknowledged packets are reported")
 }
+
+// HC09ConvertTWCC: rtpfb's TWCC converter on a status-vector chunk with every 2-bit symbol
+// (not received, small delta, large delta, received without delta): one acknowledgement per status
+// inside the count, each with the status and arrival time the feedback encodes for that number.
+func HC09ConvertTWCC() {
+	count := vr.Concretize(vr.NondetInt(1, 5))
+	base := vr.NondetU16()
+	refT := uint32(vr.NondetInt(0, 1<<24-1))
+	fb := &rtcp.TransportLayerCC{BaseSequenceNumber: base, PacketStatusCount: uint16(count), ReferenceTime: refT}
+	list := make([]uint16, 7)
+	var sym [7]uint16
+	var delta [7]int64
+	for i := 0; i < 7; i++ {
+		if i < count {
+			sym[i] = uint16(vr.Concretize(vr.NondetInt(0, 3)))
+		}
+		list[i] = sym[i]
+		if i < count && (sym[i] == rtcp.TypeTCCPacketReceivedSmallDelta || sym[i] == rtcp.TypeTCCPacketReceivedLargeDelta) {
+			delta[i] = int64(vr.NondetInt(-32768, 32767)) * 250
+			fb.RecvDeltas = append(fb.RecvDeltas, &rtcp.RecvDelta{Type: sym[i], Delta: delta[i]})
+		}
+	}
+	fb.PacketChunks = []rtcp.PacketStatusChunk{&rtcp.StatusVectorChunk{Type: rtcp.TypeTCCStatusVectorChunk, SymbolSize: rtcp.TypeTCCSymbolSizeTwoBit, SymbolList: list}}
+	acks := convertTWCC(fb)
+	vr.Cover("converted")
+	vr.Assert(len(acks) == count, "one acknowledgement per status inside the declared count")
+	ref := time.Time{}.Add(time.Duration(refT) * 64 * time.Millisecond)
+	for i := 0; i < count && i < len(acks); i++ {
+		a := acks[i]
+		vr.Assert(a.sequenceNumber == base+uint16(i), "acknowledgements follow the sequence numbers from the base")
+		switch sym[i] {
+		case rtcp.TypeTCCPacketNotReceived:
+			vr.Assert(!a.arrived && a.arrival.IsZero(), "not received")
+		case rtcp.TypeTCCPacketReceivedWithoutDelta:
+			vr.Cover("received without delta")
+			vr.Assert(a.arrived && a.arrival.IsZero(), "received without delta: arrived, no arrival time, no delta consumed")
+		default:
+			ref = ref.Add(time.Duration(delta[i]) * time.Microsecond)
+			vr.Assert(a.arrived && a.arrival.Equal(ref), "arrival = reference + sum of the deltas of the received statuses up to this one")
+		}
+	}
+}
